@@ -5,7 +5,7 @@ ID = "C09"
 EXTRACT = "ExtC09.v"
 MLMOD = "m_c09"
 RUNNER = "run_c09"
-HARNESS_PROP = "c09"
+HARNESS_BIN = "c09"
 RELEASE_ALWAYS = True     # wrap-around arithmetic: debug (overflow checks) and release
 RULE = ("helper calls (u64/u32 add_slice with arbitrary start, Sum16BitWords call sequences) and protocol checksums; "
         "every length 0..64 exhaustively x {zeros, ones, random}, random lengths up to 2 kB, accumulators started at "
